@@ -178,8 +178,11 @@ class C17(RecorderProp):
         out = []
         current = {}
 
+        sizes = []
+
         def calc(category, size, recording):
             # the ratio is a function of THIS recording (its category, size and content)
+            sizes.append(size)
             r = recording.get_data('ratio')
             return float(r[0]) / float(r[1])
         shared = S3TapeCassette('b17', key_prefix='s', read_only=False, sampling_calculator=calc)
@@ -204,10 +207,16 @@ class C17(RecorderProp):
             c = plain if ratio is None else shared
             rec = c.create_new_recording('Op')
             rec.set_data('ratio', ratio)
+            rec.set_data('pad', 'a' * 1500)       # (compresses well: the stored size is far from the encoded size)
             del used[:]
+            del sizes[:]
             before = len(fake_s3.store('b17').log)
             c.save_recording(rec)
             row = {'stored': len(fake_s3.store('b17').log) > before, 'draws': len(used)}
+            full = [v[0] for k, v in fake_s3.store('b17').objects.items() if '/full/' in k and k.endswith(rec.id)]
+            if full and sizes:
+                # the size the calculator was handed against the size of the object that was stored
+                row['sizeSeen'], row['sizeStored'] = sizes[-1], len(full[0])
             how = (case.get('lookups') or [None] * 8)[i]
             if how:
                 del used[:]
@@ -294,6 +303,9 @@ class C17(RecorderProp):
             for i, (ratio, d, r) in enumerate(zip(case['ratios'], case['draws'], impl)):
                 want = ratio is None or Fraction(*ratio) >= 1 or Fraction(*d) <= Fraction(*ratio)
                 want_draws = 0 if (ratio is None or Fraction(*ratio) >= 1) else 1
+                if r.get('sizeSeen') is not None and r['sizeSeen'] != r['sizeStored']:
+                    fails.append('S3 save %d: the sampling calculator was handed size %d, the stored (compressed) recording has %d bytes'
+                                 % (i, r['sizeSeen'], r['sizeStored']))
                 if r.get('lookupDraws', 0) != 0:
                     fails.append('S3 save %d: the %s lookup that followed it consumed %r values of the sampling generator - later '
                                  'keep / drop decisions would depend on the lookups made' % (i, case['lookups'][i], r['lookupDraws']))
